@@ -98,6 +98,7 @@ type blkIndex struct {
 	fset   *token.FileSet
 	byName map[string][]*blkFn
 	all    []*blkFn
+	ext    *blkExt // SDK distribution keeper package (blockers_ext.go); nil: external panic surface not listed
 }
 
 func blkRecvType(e ast.Expr) string {
@@ -827,6 +828,20 @@ func (ix *blkIndex) resolve(from *blkFn, c *ast.CallExpr) []*blkFn {
 			}
 			return ix.hinted(c, x.Sel.Name, from)
 		default:
+			// mh[i].Method(...) inside a hook multiplexer (type MultiXHooks []XHooks): the elements are the hook wrappers
+			// of the keepers (receiver type *Hooks in a keeper package); followed by method name for the multiplexers
+			// listed in blkFollowMulti
+			if ie, ok := x.(*ast.IndexExpr); ok && blkFollowMulti[from.recv] {
+				if id, ok := ie.X.(*ast.Ident); ok && id.Name == from.recvName {
+					var out []*blkFn
+					for _, f := range ix.byName[name] {
+						if strings.HasSuffix(f.pkg, "/keeper") && strings.Contains(f.recv, "Hooks") && !strings.HasPrefix(f.recv, "Multi") {
+							out = append(out, f)
+						}
+					}
+					return out
+				}
+			}
 			cands := ix.dataMethods(name)
 			if len(cands) == 1 {
 				return cands
@@ -836,6 +851,12 @@ func (ix *blkIndex) resolve(from *blkFn, c *ast.CallExpr) []*blkFn {
 	}
 	return nil
 }
+
+// hook multiplexers whose element calls are followed (the commitment hooks lead from the estaking end blocker's
+// BurnEdenBoost into estaking's CommitmentChanged and from there into the SDK staking/distribution hooks). The other
+// multiplexers (MultiAmmHooks, MultiPerpetualHooks, MultiLeverageLpHooks, MultiStableStakeHooks) are NOT followed:
+// the closure of a blocker stops at their methods (stated in the trusted base of C18).
+var blkFollowMulti = map[string]bool{"MultiCommitmentHooks": true}
 
 // ---------------------------------------------------------------- closure
 
@@ -920,6 +941,12 @@ func (cl *blkClosure) visit(st blkState, depth int) {
 		callees := cl.ix.resolve(st.fn, site.call)
 		live := st.live && site.prop
 		if len(callees) == 0 {
+			if m, ok := cl.ix.ext.extCall(st.fn, site.call); ok {
+				if n := len(cl.ix.ext.sites(m)); n > 0 {
+					// a call into the SDK distribution keeper that reaches explicit panic sites there (blockers_ext.go)
+					cl.addPoint(blkPoint{Fn: st.fn.id(), Kind: "extpanic", Detail: blkText(site.call.Fun), Count: n, Recovered: rec, Live: true, Depth: depth})
+				}
+			}
 			if _, fresh := blkFreshErr(site.call); live && !fresh {
 				if _, isIdent := site.call.Fun.(*ast.Ident); !isIdent {
 					d := blkText(site.call.Fun)
@@ -930,8 +957,16 @@ func (cl *blkClosure) visit(st blkState, depth int) {
 			continue
 		}
 		for _, cal := range callees {
+			if blkFollowMulti[cal.recv] || blkFollowMulti[st.fn.recv] {
+				// pure forwarding frames (multiplexer method, element wrapper) do not use up call depth
+				cl.visit(blkState{cal, rec, live && cal.retErr}, depth)
+				continue
+			}
 			if depth+1 > blkMaxDepth {
 				cl.cut++
+				if os.Getenv("BLK_DEBUG") != "" {
+					fmt.Fprintln(os.Stderr, "CUT", st.fn.id(), "->", cal.id(), "at depth", depth)
+				}
 				continue
 			}
 			cl.visit(blkState{cal, rec, live && cal.retErr}, depth+1)
@@ -1149,6 +1184,7 @@ func genBlockers(repo, out string) error {
 	if err != nil {
 		return err
 	}
+	ix.ext = blkLoadExt(repo)
 	wrappers := blkWrappers(repo)
 	var table []blkBlocker
 	for _, ph := range [][2]string{{"begin", "orderBeginBlockers"}, {"end", "orderEndBlockers"}} {
@@ -1233,7 +1269,7 @@ func genBlockers(repo, out string) error {
 	sb.WriteString("   One record per module of the production begin/end blocker order and per wired epochs hook;\n")
 	sb.WriteString("   failure points by a name-based call-graph closure inside x/ (depth " + fmt.Sprint(blkMaxDepth) + "). *)\n")
 	sb.WriteString("From Coq Require Import String List Bool.\nFrom Elys Require Import Models.Blocks.\nImport ListNotations.\nOpen Scope string_scope.\n\n")
-	kind := map[string]string{"panic": "KPanic", "must": "KMust", "quo": "KQuo", "newcoin": "KNewCoin", "coinsub": "KCoinSub", "index": "KIndex", "codec": "KCodec", "err": "KErr", "exterr": "KExtErr"}
+	kind := map[string]string{"panic": "KPanic", "must": "KMust", "quo": "KQuo", "newcoin": "KNewCoin", "coinsub": "KCoinSub", "index": "KIndex", "codec": "KCodec", "err": "KErr", "exterr": "KExtErr", "extpanic": "KExtPanic"}
 	phase := map[string]string{"begin": "PBegin", "end": "PEnd", "epoch_after": "PEpochAfter", "epoch_before": "PEpochBefore"}
 	cb := func(b bool) string {
 		if b {
@@ -1262,6 +1298,14 @@ func genBlockers(repo, out string) error {
 	if err := writeIfChanged(out, []byte(sb.String())); err != nil {
 		return err
 	}
-	js, _ := json.MarshalIndent(map[string]interface{}{"blockers": table, "max_depth": blkMaxDepth}, "", " ")
+	extSites := map[string][]string{}
+	if ix.ext != nil {
+		for m, s := range ix.ext.memo {
+			if len(s) > 0 {
+				extSites[m] = s
+			}
+		}
+	}
+	js, _ := json.MarshalIndent(map[string]interface{}{"blockers": table, "max_depth": blkMaxDepth, "ext_pkg": blkExtPkg, "ext_sites": extSites}, "", " ")
 	return writeIfChanged(filepath.Join(filepath.Dir(out), "blockers.json"), append(js, '\n'))
 }
